@@ -423,6 +423,11 @@ func (g *G) makeOp(fe int, rt reflect.Type, k string, depth int, stack *bool) *O
 		if g.S.CallerText == "" {
 			return nil
 		}
+		if g.R.Chance(1, 6) {
+			// a skip count that runs past the top of the stack: no caller can be determined, nothing is added
+			op.Args = []interface{}{100000 + g.R.Intn(5)}
+			return op
+		}
 		op.Out = []KVI{{g.S.CallerFieldName, Str(g.S.CallerText)}}
 		return op
 	case "TimeDiff":
